@@ -27,7 +27,7 @@ def run_domain_driver(lines):
     """the driver with `stepDomain` wired in (Main.lean); before the integration, the private loop MainDomain.lean"""
     wired = 'stepDomain' in open(os.path.join(core.LEAN, 'DsdVerif', 'Driver.lean'), encoding='utf-8').read()
     if wired:
-        return core.run_driver(lines)
+        return core.run_driver(['pydom.' + l for l in lines])      # the ops are named like the World's: prefixed in the common driver
     rc, out, err = core.sh(['lake', 'env', 'lean', '--run', 'MainDomain.lean'], cwd=core.LEAN, input='\n'.join(lines) + '\n', timeout=1800)
     if rc != 0:
         raise core.DriverBroken((out + err)[-3000:])
